@@ -390,6 +390,7 @@ class ParseHook:
     def __init__(self):
         self.calls = []
         self.orig = None
+        self.broken = None
 
     def install(self):
         self.orig = P.Module.parseString
@@ -397,7 +398,12 @@ class ParseHook:
 
         def hooked(s):
             tree = hook.orig(s)
-            hook.calls.append((s, U.unparse(tree)))
+            try:
+                u = U.unparse(tree)
+            except Exception as e:      # the re-renderer does not know this tree: a harness matter, never a verdict
+                hook.broken = "%s: %s" % (type(e).__name__, str(e)[:300])
+                u = ""
+            hook.calls.append((s, u))
             return tree
         P.Module.parseString = staticmethod(hooked)
 
@@ -466,6 +472,8 @@ def run_case(tape, batch):
     t = w.add_task(B._mk_task(case))
     w.run()
     viol = []
+    if hook.broken:
+        return {"harness": "tree-renderer", "detail": hook.broken}
     ok = t.state == "done"
     ent = case["kind"]
     texts = [case["inputs"][p].decode("utf-8", "replace") for p in case["files"]]
@@ -509,11 +517,27 @@ def run_case(tape, batch):
                                    "declarations (%s); corruptions=%s; input=%r" %
                                    (", ".join(definitely_invalid), case["corruptions"], texts[0][-300:])})
         # O1
-        if len(hook.calls) != 1:
-            viol.append({"inv": "O1", "sig": "O1:%s:parse-calls" % ent,
-                         "detail": "expected exactly one Module.parseString call, saw %d" % len(hook.calls)})
-        else:
-            seen_text, unparsed = hook.calls[0]
+        # what the tool understood: the trees Module.parseString returned during the run (one call for the
+        # joined MATLAB sources today; a tool that parses file by file, or twice, is as good -- identical
+        # calls are counted once).  A tool that reaches the grammar by another door leaves no call: then the
+        # same text is parsed here with the tool's own parser (observation by fallback, probe-counted).
+        calls = []
+        for c in hook.calls:
+            if c not in calls:
+                calls.append(c)
+        if not calls:
+            try:
+                tree = hook.orig("\n".join(parsed_files))
+                calls = [("", U.unparse(tree))]
+                w.probe("parse_result_observed_by_fallback")
+            except U.UnparseError as e:
+                return {"harness": "tree-renderer", "detail": str(e)[:300]}
+            except Exception as e:
+                return {"harness": "parse-result-unobservable",
+                        "detail": "the run succeeded without calling Module.parseString and the parser rejects the "
+                                  "text when called directly: %s: %s" % (type(e).__name__, str(e)[:200])}
+        if True:
+            unparsed = "\n".join(u for _, u in calls)
             a = L.bag([tk for tx in parsed_files for tk in L.normalise(L.scan(tx)[0])])
             b = L.bag(L.normalise(L.scan(unparsed)[0]))
             if a != b:
